@@ -61,7 +61,7 @@ def run(v):
                     "c16_gen", workers=8, coverage=False, timeout=1800)
     cases = os.path.join(wd, "cases.ndjson")
     n = 0
-    stride = 1 if thorough else 4
+    stride = 2 if thorough else 12
     with open(cases, "w") as f:
         for x in rg.prints:
             p = common.parse_print(x)
@@ -79,9 +79,13 @@ def run(v):
                     "c16_memo", workers=4, coverage=False, timeout=900)
     if rm.violated != "AnswerIsCurrent":
         raise common.ToolError("MC_JsLinter: the lint-memo deviation is not refuted (vacuous invariant)")
+    rdc = common.tlc(os.path.join(SPEC, "mc", "MC_JsLinter.tla"), os.path.join(SPEC, "mc", "MC_JsLinter_dev_doccache.cfg"),
+                     "c16_doccache", workers=4, coverage=False, timeout=900)
+    if rdc.violated != "PromisedHidden":
+        raise common.ToolError("MC_JsLinter: the document-cache deviation is not refuted (vacuous invariant)")
     rg2 = common.tlc(os.path.join(SPEC, "mc", "MC_JsLinter.tla"), os.path.join(SPEC, "mc", "MC_JsLinter_gen_ignorelist.cfg"),
                      "c16_gen2", workers=8, coverage=False, timeout=1800)
-    stride2 = 3 if thorough else 25
+    stride2 = 10 if thorough else 90
     with open(cases, "a") as f:
         for x in rg2.prints:
             p = common.parse_print(x)
